@@ -416,7 +416,7 @@ func c19GenHost(t *rapid.T) string {
 	).Draw(t, "host")
 	switch rapid.IntRange(0, 19).Draw(t, "hostkind") {
 	case 0:
-		return rapid.SampledFrom([]string{"::1", "2001:db8::1", "0:0:0:0:0:0:0:1", "fe80::1"}).Draw(t, "ip6host")
+		return rapid.SampledFrom([]string{"::1", "2001:db8::1", "0:0:0:0:0:0:0:1", "fe80::1", "2001:DB8::A", "::ffff:10.0.0.1", "::ffff:a00:1", "0:0:0:0:0:ffff:c0a8:1", "::FFFF:192.0.2.10", "64:ff9b::192.0.2.33"}).Draw(t, "ip6host")
 	case 1:
 		return base + "///" + rapid.SampledFrom([]string{"198.51.100.7:50123", "203.0.113.9:1"}).Draw(t, "realip") + "///" + fmt.Sprint(rapid.IntRange(1_600_000_000, 1_900_000_000).Draw(t, "ts"))
 	case 2:
@@ -506,6 +506,6 @@ func c19Gen(t *rapid.T) c19Case {
 
 func TestVerif_C19(t *testing.T) {
 	verifkit.Check(t, "C19", "handshake-address",
-		"client handshakes (hosts: plain/upper-case/trailing dot/IPv4/IPv6 literal/TCPShield/IDN/empty x NUL suffixes FML,FML2,FML3,FORGE,FORGEn,junk x 21 protocols) turned into players as handleHandshake does (+ 1.7 clients upgraded to LegacyForge, + 10% synthetic type/host pairs) x forwarding none/velocity/legacy/bungeeguard x JSON-hostile profile properties x host-preserving hooks (ServerInfo HandshakeAddresser identity; BackendHandshakeAddresser identity / append NUL+data); real startHandshake, the buffered Handshake.ServerAddress judged by an independent oracle (host first / 4-part BungeeCord forwarding that decodes to the properties, token last); non-trivial = Forge marker on a Forge connection, or an addresser installed, or forwarding used",
+		"client handshakes (hosts: plain/upper-case/trailing dot/IPv4/IPv6 literal incl. IPv4-mapped and NAT64 spellings/TCPShield/IDN/empty x NUL suffixes FML,FML2,FML3,FORGE,FORGEn,junk x 21 protocols) turned into players as handleHandshake does (+ 1.7 clients upgraded to LegacyForge, + 10% synthetic type/host pairs) x forwarding none/velocity/legacy/bungeeguard x JSON-hostile profile properties x host-preserving hooks (ServerInfo HandshakeAddresser identity; BackendHandshakeAddresser identity / append NUL+data); real startHandshake, the buffered Handshake.ServerAddress judged by an independent oracle (host first / 4-part BungeeCord forwarding that decodes to the properties, token last); non-trivial = Forge marker on a Forge connection, or an addresser installed, or forwarding used",
 		c19Gen, c19Run)
 }
